@@ -2,6 +2,7 @@
   C06 — successful hashes are well-formed passwd(5)-safe strings of the method's shape.
 -/
 import Xc.Lemmas.Api
+import Xc.Thm.C01
 namespace Xc.C06
 open Xc
 
@@ -53,5 +54,17 @@ theorem C06_digest_lengths (D : Digests) (hD : D.WF) :
 /-- descrypt results are exactly 13 characters; bcrypt results exactly 60 -/
 theorem C06_des_13 (D : Digests) (hD : D.WF) (p s H : Bytes) (h : cryptDes D p s = .ok H) : H.length = 13 :=
   (cryptDes_good hD h).2
+
+/-- **the result selects the same method as the setting**, as a setting and as a gensalt prefix: it is dispatched to the same row
+    of the table (so it begins with the same method prefix), hashing with it reproduces it, and `crypt_gensalt*` given the
+    result as its prefix argument behaves exactly as with the original setting — every configuration whose table is `TableOk` -/
+theorem C06_same_method (cfg : Config) (hT : C18.TableOk cfg.table = true) (D : Digests) (hD : D.WF) (p s H : Bytes)
+    (h : cryptPure cfg D p s = .ok H) :
+    getHashFn cfg.table H = getHashFn cfg.table s ∧ cryptPure cfg D p H = .ok H ∧
+    ∀ (count : Nat) (rb : Option Bytes) (nrb osize : Int) (os : Nat → Bytes),
+      gensaltRn cfg (some H) count rb nrb osize os = gensaltRn cfg (some s) count rb nrb osize os := by
+  obtain ⟨h1, h2⟩ := C01.C01_roundtrip_row cfg hT D hD p s H h
+  refine ⟨h2, h1, fun count rb nrb osize os => ?_⟩
+  simp [gensaltRn, resolvePrefix, h2]
 
 end Xc.C06
